@@ -304,6 +304,23 @@ func vC04TreeHistory(out *vC04Out, r *rand.Rand, budget int, plan *vC04TreePlan)
 		if env.c.store.RecordNXDomainCut(proof, name, vC04Zone, lease) {
 			cutNames = append(cutNames, name)
 		}
+		// session 5: mostly also an alias onto the denied name that has to be fetched (again): its
+		// answer adopts the denial the rung synthesises and the client path re-records the cut from
+		// it (cases CCutRerec), under a lease of its own every other time
+		if j := r.Intn(nn); r.Intn(3) > 0 && w.names[j] != name {
+			m := new(dns.Msg)
+			m.SetQuestion(w.names[j], dns.TypeA)
+			m.Response = true
+			m.Answer = []dns.RR{&dns.CNAME{Hdr: dns.RR_Header{Name: w.names[j], Rrtype: dns.TypeCNAME, Class: dns.ClassINET,
+				Ttl: []uint32{1, 5, 20, 300, 3600}[r.Intn(5)]}, Target: w.target(name)}}
+			sc := &vC04Script{resp: m, cutKey: uint64(100 + j)}
+			if r.Intn(2) == 0 {
+				sc.hasCut = true
+				sc.cut = k.now() + int64([]time.Duration{2500 * time.Millisecond, 7 * time.Second, 40 * time.Second, 10 * time.Minute}[r.Intn(4)]) + int64(r.Intn(900))*int64(time.Millisecond)
+			}
+			env.stub.script[w.names[j]] = sc
+			env.c.Purge(dns.Question{Name: w.names[j], Qtype: dns.TypeA, Qclass: dns.ClassINET})
+		}
 	}
 	if cutWorld {
 		recordCut()
@@ -337,8 +354,8 @@ func vC04TreeHistory(out *vC04Out, r *rand.Rand, budget int, plan *vC04TreePlan)
 			i := r.Intn(nn)
 			env.stub.script[w.names[i]] = w.genScript(r, i)
 			continue
-		case x == 1:
-			if cutWorld && r.Intn(2) == 0 {
+		case x == 1 || (cutWorld && x == 2):
+			if cutWorld && x == 1 {
 				recordCut()
 				continue
 			}
@@ -465,6 +482,48 @@ func vC04TreeHistory(out *vC04Out, r *rand.Rand, budget int, plan *vC04TreePlan)
 			if cur := env.c.store.nxDomainCuts.entries[old.id]; cur != nil && cur != old && cur.expires.After(old.expires) {
 				cutFail = fmt.Sprintf("cut for %s re-recorded from its own synthesised denial outlives it by %v", old.deniedName, cur.expires.Sub(old.expires))
 			}
+		}
+		// ... and it is a case of its own (session 5): the client path re-records with the request's
+		// bound as the lease; model = cut_record of the new entry's own records between the two
+		// extremes of that lease (the tree's final bound, the older cut's expiry)
+		for _, old := range cutSnap {
+			cur := env.c.store.nxDomainCuts.entries[old.id]
+			if cur == nil || cur == old {
+				continue
+			}
+			var soa *dns.SOA
+			for _, rr := range cur.msg.Ns {
+				if x, ok := rr.(*dns.SOA); ok && soa == nil {
+					soa = x
+				}
+			}
+			if soa == nil {
+				out.emit(map[string]any{"k": "cut-rerecord-tree", "go_fail": "re-recorded cut without an SOA", "desc": "internal"})
+				continue
+			}
+			rfail := ""
+			if cur.expires.After(old.expires) {
+				rfail = fmt.Sprintf("cut for %s re-recorded from its own synthesised denial outlives it by %v", old.deniedName, cur.expires.Sub(old.expires))
+			}
+			// the top-level request recorded it last when its own answer was written (admitted) in this
+			// query and is the adopted NXDOMAIN: the lease it passed is the bound the driver reads
+			top := false
+			for _, e := range admitted {
+				if admName[e] == qname && rep.msg != nil && rep.msg.Rcode == dns.RcodeNameError {
+					top = true
+				}
+			}
+			kr := fmt.Sprintf("cut-rerecord-tree-route%d-hops%d", route, len(rep.stubbed))
+			if top {
+				kr += "-top"
+			}
+			if rep.boundOK && rep.boundV < k.virt(old.expires) {
+				kr += "-shorterbound"
+			}
+			out.emit(map[string]any{"k": kr, "nontrivial": true, "go_fail": rfail,
+				"coq": fmt.Sprintf("CCutRerec %v %d %s %s %d %d %s %s %s %d %s", top, int64(env.c.store.nxDomainCuts.maxTTL), vC04Z(k.virt(old.expires)), vC04Z(rep.t0),
+					soa.Hdr.Ttl, soa.Minttl, vC04PRRs(cur.msg.Ns), rep.bound, vC04Z(k.virt(cur.stored)), cur.stored.UnixNano(), vC04Z(k.virt(cur.expires))),
+				"desc": map[string]any{"q": qname, "denied": old.deniedName, "old_expires": k.virt(old.expires), "new_expires": k.virt(cur.expires), "proof": cur.msg.String()}})
 		}
 		var wit, adm []string
 		for _, e := range admitted {
